@@ -17,7 +17,8 @@ vars == <<l, st, rej>>
 NoRun == [id |-> "", phase |-> "none"]
 
 NewRun(e) == [id |-> e.id, phase |-> "new", cfg |-> e.cfg, tmax |-> e.tmax, lib |-> e.lib,
-              header |-> <<>>, data |-> <<>>, atts |-> <<>>, mds |-> <<>>, file |-> <<>>, bad |-> FALSE, src |-> <<>>]
+              header |-> <<>>, data |-> <<>>, atts |-> <<>>, mds |-> <<>>, file |-> <<>>, bad |-> FALSE, src |-> <<>>,
+              reg |-> <<>>, asm |-> FALSE]      \* reg: what the caller registered by writing or adding it; asm: the caller assembled chunks / added definitions
 
 (* a call is expected to succeed unless it is an attachment whose source misbehaves *)
 ExpectOK(e) == ~(e.op = "attachment" /\ e.src # "")
@@ -30,7 +31,11 @@ DataItem(e) ==
 ApplyCall(s, e) ==
   IF e.ret # "ok" THEN s
   ELSE CASE e.op = "header" -> [s EXCEPT !.header = <<[profile |-> e.profile, library |-> e.explib]>>, !.phase = "open"]
-         [] e.op \in {"schema", "channel", "message"} -> [s EXCEPT !.data = Append(@, DataItem(e))]
+         [] e.op \in {"schema", "channel"} -> [s EXCEPT !.data = Append(@, DataItem(e)), !.reg = Append(@, DataItem(e))]
+         [] e.op = "message" -> [s EXCEPT !.data = Append(@, DataItem(e))]
+         [] e.op = "addschema"  -> [s EXCEPT !.reg = Append(@, DataItem([e EXCEPT !.op = "schema"])), !.asm = TRUE]
+         [] e.op = "addchannel" -> [s EXCEPT !.reg = Append(@, DataItem([e EXCEPT !.op = "channel"])), !.asm = TRUE]
+         [] e.op = "chunk" -> [s EXCEPT !.data = IF e.usize = 0 THEN @ ELSE @ \o e.items, !.asm = TRUE]
          [] e.op = "attachment" -> [s EXCEPT !.atts = Append(@, [log |-> e.log, create |-> e.create, name |-> e.name,
                                                               media |-> e.media, dsize |-> e.dsize, data |-> e.data])]
          [] e.op = "metadata" -> [s EXCEPT !.mds = Append(@, [name |-> e.name, md |-> e.md])]
@@ -52,14 +57,19 @@ JudgeFile(s, f) ==
            hdr == f.recs[1]
            sr == StatsRec(f)
            ext == "external" \in DOMAIN s.cfg        \* written by a converter: the logical content is judged separately (C18)
-           cont == IF ext THEN fc ELSE Content(s) IN
-       Failed("C05", IndexExactNames(f, s.cfg))
+           cont == IF ext THEN fc ELSE Content(s)
+           \* the definitions the summary repeats: what the caller registered (assembling runs), else what the data holds
+           ds == IF s.asm THEN FirstById(Sel(s.reg, LAMBDA r : r.k = "Schema")) ELSE DataDefs(f, "Schema")
+           dc == IF s.asm THEN FirstById(Sel(s.reg, LAMBDA r : r.k = "Channel")) ELSE DataDefs(f, "Channel")
+           sids == IF s.asm THEN {x.r.id : x \in Range(ds)} ELSE {r.id : r \in Range(Sel(cont.data, LAMBDA r : r.k = "Schema"))}
+           cids == IF s.asm THEN {x.r.id : x \in Range(dc)} ELSE {r.id : r \in Range(Sel(cont.data, LAMBDA r : r.k = "Channel"))} IN
+       Failed("C05", IndexExactNamesR(f, s.cfg, ds, dc))
        \cup Failed("C06", CrcNames(f, s.cfg))
        \cup Failed("C05/Content", SameContentNames(cont, fc))
        \cup (IF s.header # <<>> /\ hdr.profile = s.header[1].profile /\ hdr.library = s.header[1].library THEN {} ELSE {"C05/Content/Header"})
        \cup (IF s.cfg.skipStats THEN (IF sr = <<>> THEN {} ELSE {"C05/StatisticsPresent"})
              ELSE IF Len(sr) # 1 THEN {"C08/StatisticsRecord"}
-             ELSE Failed("C08", StatsNames(sr[1], cont, Cardinality(KindIdx(f, "Chunk")))))
+             ELSE Failed("C08", StatsNamesR(sr[1], cont, Cardinality(KindIdx(f, "Chunk")), sids, cids)))
 
 (* ------------------------------------------------------------------ reads *)
 TokSame(t, c) ==
